@@ -309,6 +309,15 @@ class EditStream(HTMLHandlerBase):
             params = flask.request.json
         else:
             params = flask.request.form
+        try:
+            self.check_csrf('streams', params)
+        except (ValueError, CsrfFailureException) as cfe:
+            logging.debug('csrf check failed: %s', cfe)
+            if is_ajax():
+                return jsonify({'error': 'csrf check failed'}, 401)
+            context = self.create_context(current_stream.title, True)
+            context['error'] = 'csrf check failed'
+            return flask.render_template('media/stream.html', **context)
         current_stream.title = params['title']
         context = self.create_context(current_stream.title, False)
         if models.MediaFile.count(stream=current_stream) == 0:
@@ -323,19 +332,6 @@ class EditStream(HTMLHandlerBase):
                 return flask.make_response(
                     f'Invalid timing_reference "{html.escape(timing_reference)}"', 400)
             current_stream.set_timing_reference(mf.as_stream_timing_reference())
-        try:
-            self.check_csrf('streams', params)
-        except (CsrfFailureException) as cfe:
-            logging.debug("csrf check failed")
-            logging.debug(cfe)
-            context['error'] = "csrf check failed"
-        if context['error'] is not None:
-            context['csrf_tokens'] = CsrfTokenCollection(
-                files=self.generate_csrf_token('files', context['csrf_key']),
-                kids=self.generate_csrf_token('keys', context['csrf_key']),
-                streams=context['csrf_token'],
-                upload=None)
-            return flask.render_template('media/stream.html', **context)
         models.db.session.commit()
         if is_ajax():
             return jsonify(current_stream.toJSON())
